@@ -350,7 +350,10 @@ def install_wrappers():
         return out
 
     def _rep_state(rep):
-        return None if rep is None else [1 if rep.survey_in_progress else 0, int(rep.time_surveyed)]
+        if rep is None:
+            return None
+        ts = rep.time_surveyed     # exact: fractional daylight hours give fractional minutes
+        return [1 if rep.survey_in_progress else 0, int(ts) if float(ts).is_integer() else float(ts)]
 
     orig_sched_init = GenericSchedule.__init__
 
